@@ -67,11 +67,9 @@ func (m *Mast) savePathForRoot(ctx context.Context, path []pathEntry) error {
 			entry.node.Link[entry.linkIndex] = nil
 		}
 	}
-	if !path[0].node.isEmpty() {
-		m.root = path[0].node
-	} else {
-		m.root = nil
-	}
+	// An emptied tree keeps its (dirty, entry-less) root node until it is
+	// persisted, so that IsDirty still reports the unsaved deletion.
+	m.root = path[0].node
 	return nil
 }
 
